@@ -254,6 +254,10 @@ func (g *Gen) multi(depth int, cur interface{}) *Ex {
 		for i := 0; i < n; i++ {
 			e.Es = append(e.Es, g.expr(0, depth-1, hAny, cur))
 		}
+		if len(e.Es) == 1 && e.Es[0].K == "valproj" && e.Es[0].L == nil && e.Es[0].R.Kind == 0 {
+			// "[*]" is the list wildcard
+			e.Es = append(e.Es, &Ex{K: "current"})
+		}
 		return e
 	}
 	e := &Ex{K: "mshash"}
